@@ -87,6 +87,22 @@ Theorem C05_attach_only_after_accept : forall names l c n sid,
   exists l1 l2, l = l1 ++ SVerdict c n true sid :: l2.
 Proof. exact attach_only_after_accept. Qed.
 
+(** "Attached" also means "reachable by broadcasts": the adapter of a namespace delivers only to
+    sockets the namespace's store knows, and a socket enters that store only in the step in which
+    nsp.add succeeds.  So over every history, every packet that a broadcast in namespace n (whole
+    namespace, a room, with or without exceptions) puts on a connection c goes to a socket of n that
+    was accepted for c earlier -- never to one whose CONNECT is still with the middlewares, whatever
+    rooms a middleware has already joined it to ([SMwJoin]). *)
+Theorem C05_broadcast_reaches_only_accepted : forall names l n room ex tag c p,
+  In (OSend c p) (snd (s_bcast n room ex tag (fst (srun l (server0 names))))) ->
+  p_nsp p = n /\ exists sid l1 l2, l = l1 ++ SVerdict c n true sid :: l2.
+Proof. exact broadcast_reaches_only_accepted. Qed.
+
+Theorem C05_in_namespace_store_only_after_accept : forall names l n sid c,
+  In (sid, c) (ids (sv_nsp (fst (srun l (server0 names))) n)) ->
+  exists l1 l2, l = l1 ++ SVerdict c n true sid :: l2.
+Proof. exact socks_only_after_accept. Qed.
+
 (** Frame over the product state: a step on behalf of namespace a that does not close the
     connection leaves the namespace state (sockets, rooms, ack tables, ack counter) and every
     connection's table entry of any other namespace b untouched, and everything it emits (packets,
